@@ -90,10 +90,13 @@ CLAIMED["C10"] = dict(cat="proof", ref="DESIGN.md §5 C10, §12",
 CLAIMED["C09"] = dict(cat="proof", ref="DESIGN.md §5 C09, §12",
    text="Lean theorems c09_choose_eq_spec (write_union's scan with its record-accumulation / could_be_float / break structure = the documented rule "
         "Spec.choose: first conforming non-record branch, float defers to a later double, else the conforming record sharing most field names, first on "
-        "ties; error when nothing conforms; hints select the first branch of that name) and c09_hint (exact selection / ValueError). Determinism is by "
+        "ties; error when nothing conforms; hints select the first branch of that name), c09_hint (exact selection / ValueError), c09_closure_branch (the "
+        "(name, value) pair read_union reports for a named branch selects, written back, exactly the branch it was read from) and c09_closure_union_level (hence "
+        "identical bytes for the union whenever the value inside re-encodes identically). Determinism is by "
         "construction (pure function; hidden state is C17). Implementation: bytes compared with Spec.encode under the documented rule at any nesting depth, "
         "all reader options against the model, closure (read with return_named_type, write back, identical bytes), unknown hints.",
-   note="the closure clause is checked on the implementation and tied to the model by correspondence, not proved (partial for that clause); theorem guard: plain "
+   note="the closure clause is proved per union level; the induction over a whole datum (values inside re-encode identically, unnamed branches keep their choice) is "
+        "checked on the implementation and tied to the model by correspondence, not proved (partial for that clause); theorem guard: plain "
         "schemas (no logical types) and no exception while validating branches; model==implementation observed by correspondence",
    tech="Lean 4 proof (scan = declarative rule, via validate = conforms) + rule-based spec encoder against the implementation's bytes")
 CLAIMED["C11"] = dict(cat="proof", ref="DESIGN.md §5 C11, §12",
@@ -111,9 +114,13 @@ CLAIMED["C13"] = dict(cat="proof", ref="DESIGN.md §5 C13, §12",
    text="Lean theorems c13_eq_spec / c13_eq_spec_nested (to_parsing_canonical_form(parse_schema(raw)) = Spec.pcf(raw), the specification's transformation "
         "written on the raw JSON value, for every schema, namespace nesting and depth), c13_spec_stable, c13_cosmetic_type / c13_cosmetic_field (the "
         "transformation reads only type, name, namespace, fields, symbols, items, values, size and a field's name and type: edits confined to anything else, or "
-        "to attribute order, cannot change the canonical form). Implementation: canonical text compared with Spec.pcf on generated schemas and the repository's "
+        "to attribute order, cannot change the canonical form), c13_cosmetic_name / c13_inherited_namespace, c13_fixed_point / c13_idempotent (the fixed-point "
+        "clause at the level of JSON values: Canon.toRaw s is the value the canonical text denotes — compared with json.loads of the implementation's text on "
+        "every case — and the specification's transformation applied to it returns the same text, for every schema whose names read back in scope; the "
+        "complement is finding F18). Implementation: canonical text compared with Spec.pcf on generated schemas and the repository's "
         "reference vectors, ten kinds of cosmetic rewrite at random positions, fixed point, same-encoding both ways.",
-   note="fixed-point and same-encoding clauses run through json.loads and the codec: tested against the implementation, not proved (partial for those clauses); "
+   note="json.loads itself is trusted (its result is compared with the model's Canon.toRaw); the same-encoding clause runs through the codec: tested against the "
+        "implementation, not proved (partial for that clause); "
         "the 'namespace+name vs dotted' rewrite is tested, not proved; known finding F18 (null namespace inside a namespaced type: the specification's form is "
         "not a fixed point); strings are interpolated without JSON escaping in both implementation and model (names/symbols are regex-restricted)",
    tech="Lean 4 proof (parser/canonical writer lockstep with an independent spec transformation) + cosmetic-rewrite harness")
@@ -161,15 +168,16 @@ CLAIMED["C15"] = dict(cat="proof", ref="DESIGN.md §5 C15, §11, §12, §13",
         "iter_array / iter_map, lazily executed actions, drain_actions between documents; Proofs/JsonMachineDec.lean): c15_machine_json_reader (the machine returns "
         "what the function-level reader returns, any depth, any number of documents, for schemas whose map values leave at most their own RecordEnd pending — DOk: "
         "primitives, enums, fixed, arrays, maps, unions of those, records whose last field is one of those — and documents of the "
-        "writer's shape — Fits, proved of every specification encoding by spec_fits), c15_machine_reads_spec (so the specification's encodings are read back as the "
+        "writer's shape — Fits: every field present, or absent with a default of that shape, which the machine reads exactly as the function-level reader does; "
+        "proved of every specification encoding by spec_fits), c15_machine_reads_spec (so the specification's encodings are read back as the "
         "records as written) and c15_machine_round_trip (json_writer then json_reader on the machine = the records as written). "
         "The driver evaluates Spec.written and the machine model on every harness case; implementation = machine model is compared on record lists (also on the "
         "derailing shapes and on texts with keys removed), and a failure is attributed to a recorded finding only when the machine model reproduces it. The "
         "agreement-with-binary and absent-field-default clauses are checked on the implementation (JSON text compared by value with Spec.jsonEncode under the documented "
         "branch rule, read back, compared with the binary round trip, fields deleted from the text take the specification's reading of their default, defaults family "
         "over every field kind, write_union_type on/off, empty record list).",
-   note="the read-side theorems exclude maps whose values are unions with a record branch or records ending in a record (F28) and documents with absent fields "
-        "(defaults: harness, spec_default oracle); the model's loops carry an iteration bound of 1,000,000 (hypothesis Small); open findings F5a-d, F27, F28, F33 (grammar "
+   note="the read-side theorems exclude maps whose values are unions with a record branch or records ending in a record (F28) ; absent fields are covered relative to the function-level reader "
+        "(against the specification's reading of a default: harness, spec_default oracle, finding F27); the model's loops carry an iteration bound of 1,000,000 (hypothesis Small); open findings F5a-d, F27, F28, F33 (grammar "
         "machine), F14 (numbers not rounded to the type's precision); F30-F32 (defaults consumed / dropped) found by the machine model and fixed in /repo; "
         "model==implementation observed by correspondence",
    tech="Lean 4 proof (function-level encoder = specification encoder; push-down machine writer = function-level encoder; function-level reader inverts it; push-down machine reader = function-level reader) + machine model and specification encoder run against the implementation")
